@@ -78,13 +78,13 @@ SCENARIOS = [
      'threads': [[0], [1]], 'bound': 2},
     {'name': 'failing', 'cap': 2, 'auto_reload': False, 'callback': False,
      'files': {0: {'content': 10}, 1: {'content': 11, 'bad': True}}, 'setup': [],
-     'threads': [[5, 0], [1, 0]], 'bound': 1, 'sample': 150},
+     'threads': [[5, 0], [1, 0]], 'bound': 2},
     {'name': 'two-each', 'cap': 2, 'auto_reload': False, 'callback': True,
      'files': {0: {'content': 10, 'includes': [2]}, 1: {'content': 11}, 2: {'content': 12}}, 'setup': [],
      'threads': [[0, 1], [1, 0]], 'bound': 1, 'sample': 150},
     {'name': 'hits-update-item', 'cap': 4, 'auto_reload': False, 'callback': False,
      'files': dict((i, {'content': 10 + i}) for i in range(4)),
-     'setup': [L(0), L(1), L(2), L(3)], 'threads': [[1, 2], [2, 0]], 'bound': 1, 'sample': 150},
+     'setup': [L(0), L(1), L(2), L(3)], 'threads': [[1, 2], [2, 0]], 'bound': 2},
 ]
 SCENARIOS_MANY = [
     {'name': 'three-threads', 'cap': 2, 'auto_reload': True, 'callback': False,
@@ -632,7 +632,7 @@ def shards(ctx, scns):
         if scn['bound'] >= 1:
             firsts = [[i + 1, t] for i, alts in enumerate(info['alts']) for t in alts]
             args.append((scn, 'first', None, ctx.seed))
-            chunk = max(1, len(firsts) // (8 if scn['bound'] >= 2 else 2))
+            chunk = max(1, len(firsts) // (12 if scn['bound'] >= 2 else 2))
             for i in range(0, len(firsts), chunk):
                 args.append((scn, 'first', firsts[i:i + chunk], ctx.seed))
         else:
